@@ -37,13 +37,17 @@ OPS = {
     "register_x_new": lambda ns: ns.register("x", "PYRO:xnew@h:1"),
     "remove_x": lambda ns: ns.remove("x"),
     "remove_prefix": lambda ns: ns.remove(prefix="pre."),
+    "remove_prefix2": lambda ns: ns.remove(prefix="pre."),
+    "remove_regex": lambda ns: ns.remove(regex=r"pre\..*"),
+    "remove_regex2": lambda ns: ns.remove(regex=r"pre\.[ab]"),
     "set_meta_x": lambda ns: ns.set_metadata("x", ["m"]),
     "lookup_x": lambda ns: str(ns.lookup("x")),
     "count": lambda ns: ns.count(),
     "list_pre": lambda ns: sorted(ns.list(prefix="pre.")),
 }
 PAIRS = [("register_safe_y", "register_safe_y2"), ("remove_x", "remove_x"), ("remove_x", "lookup_x"), ("set_meta_x", "remove_x"),
-         ("set_meta_x", "register_x_new"), ("remove_prefix", "count"), ("remove_prefix", "list_pre"), ("remove_x", "count")]
+         ("set_meta_x", "register_x_new"), ("remove_prefix", "count"), ("remove_prefix", "list_pre"), ("remove_x", "count"),
+         ("remove_prefix", "remove_prefix2"), ("remove_regex", "remove_regex2"), ("remove_prefix", "remove_regex")]
 
 
 def run_op(ns, name):
